@@ -1,5 +1,7 @@
 import HeartwoodModel.Model.Patch
 import HeartwoodModel.Lemmas.Patch
+import HeartwoodModel.Lemmas.CobDag
+import HeartwoodModel.Props.C06
 /-!
 # C08 — A patch is merged only by a threshold of agreeing delegates
 
@@ -282,6 +284,98 @@ theorem merged_is_stable_history {p : Patch} (ops : List Op) {r : Id} {c : Commi
     cases hop : op p o with
     | error e => exact ih hno' hm
     | ok p1 => exact ih hno' (merged_stable_op hop (hno o List.mem_cons_self) hm)
+
+/-! ### every change graph (the generic evaluator of `Model/ChangeGraph.lean`) -/
+
+section Graph
+open HeartwoodModel.Dag HeartwoodModel.ChangeGraph
+
+/-- `Evaluate::init` for patches. -/
+def graphInit (o : Op) : Option Patch :=
+  match fromRoot o with
+  | .ok p => some p
+  | .error _ => none
+
+/-- The evaluation of a change graph is the linear evaluation of a list of its entries (pairwise
+distinct keys, none of them the root, valid signatures), in the order the evaluator visited them. -/
+theorem evaluate_is_eval {g g' : Dag Op} (hwf : g.Wf) (hac : Acyclic g.dependentsOf)
+    {sigOk : Op → Bool} {ts : Op → Nat} {fuel : Nat} {root : K} {p : Patch}
+    (h : evaluate sigOk ts graphInit patchApplyM fuel g root = .ok p g') :
+    ∃ (rn : Node Op) (p0 : Patch) (calls : List (Call Op)), g.get root = some rn ∧ fromRoot rn.value = .ok p0 ∧
+      (calls.map (·.1)).Nodup ∧ root ∉ calls.map (·.1) ∧
+      (∀ c ∈ calls, ∃ n0, g.get c.1 = some n0 ∧ c.2.1.value = n0.value ∧ sigOk n0.value = true) ∧
+      p = eval p0 (calls.map (·.2.1.value)) := by
+  obtain ⟨rn, p0, calls, hr, _, hi, hn, hroot, hv, hs⟩ := evaluate_linear hwf hac h
+  have hi' : fromRoot rn.value = .ok p0 := by
+    unfold graphInit at hi
+    split at hi
+    · rename_i q hq; cases hi; exact hq
+    · cases hi
+  -- drop the calls whose signature check failed: they do not touch the state
+  let f : Call Op → Option Op := fun c => if sigOk c.2.1.value then some c.2.1.value else none
+  have hrun : p = (calls.filterMap f).foldl step p0 := by
+    rw [hs]
+    apply runCalls_filterMap
+    intro s c
+    simp only [evalFilter, f]
+    cases hsg : sigOk c.2.1.value <;> simp [patchApplyM]
+  refine ⟨rn, p0, calls.filter (fun c => sigOk c.2.1.value), hr, hi', ?_, ?_, ?_, ?_⟩
+  · exact (List.Sublist.map _ List.filter_sublist).nodup hn
+  · intro hx
+    exact hroot ((List.Sublist.map _ List.filter_sublist).subset hx)
+  · intro c hc
+    obtain ⟨hc1, hc2⟩ := List.mem_filter.mp hc
+    obtain ⟨n0, h1, h2⟩ := hv c hc1
+    exact ⟨n0, h1, h2, by rw [← h2]; exact hc2⟩
+  · rw [hrun]
+    show _ = (List.map _ _).foldl step p0
+    congr 1
+    clear hs hrun hv hroot hn
+    induction calls with
+    | nil => rfl
+    | cons c cs ih =>
+      simp only [List.filterMap_cons, List.filter_cons, f]
+      cases hsg : sigOk c.2.1.value
+      · simpa using ih
+      · simpa using ih
+
+/-- **merged_needs_threshold_dag** — the property for the state produced by the real evaluation
+algorithm (`ChangeGraph::evaluate`: depth-first topological order with `(timestamp, oid)` tie-breaks,
+signature check, pruning of rejected entries and their dependents) on EVERY well-formed acyclic change
+graph: if the evaluated patch is `Merged{r,c}`, then some entries of the graph (each with a valid
+signature, evaluated once) form a history in which the threshold of an applied op's document is
+reached by distinct delegates, each with an applied, ancestry-checked `Merge{r,c}`. -/
+theorem merged_needs_threshold_dag {g g' : Dag Op} (hwf : g.Wf) (hac : Acyclic g.dependentsOf)
+    {sigOk : Op → Bool} {ts : Op → Nat} {fuel : Nat} {root : K} {p : Patch} {r : Id} {c : Commit}
+    (h : evaluate sigOk ts graphInit patchApplyM fuel g root = .ok p g') (hm : p.state = .merged r c) :
+    ∃ (rootOp : Op) (p0 : Patch) (hist : List Op), (∃ rn, g.get root = some rn ∧ rn.value = rootOp) ∧
+      fromRoot rootOp = .ok p0 ∧
+      (∀ o ∈ hist, ∃ k n, g.get k = some n ∧ n.value = o ∧ sigOk o = true) ∧
+      p = eval p0 hist ∧ ThresholdReached (rootOp :: applied p0 hist) r c := by
+  obtain ⟨rn, p0, calls, hr, hi, _, _, hv, hp⟩ := evaluate_is_eval hwf hac h
+  refine ⟨rn.value, p0, calls.map (·.2.1.value), ⟨rn, hr, rfl⟩, hi, ?_, hp, ?_⟩
+  · intro o ho
+    obtain ⟨c', hc', rfl⟩ := List.mem_map.mp ho
+    obtain ⟨n0, h1, h2, h3⟩ := hv c' hc'
+    exact ⟨c'.1, n0, h1, h2.symm, by rw [h2]; exact h3⟩
+  · exact merged_needs_threshold_history hi _ (hp ▸ hm)
+
+/-- **merged_is_stable_dag**: appending (anywhere the evaluator may put them) entries without a `Merge`
+action never un-merges: stated on the linear run the evaluation amounts to (`evaluate_is_eval`). -/
+theorem merged_is_stable_dag {g g' : Dag Op} (hwf : g.Wf) (hac : Acyclic g.dependentsOf)
+    {sigOk : Op → Bool} {ts : Op → Nat} {fuel : Nat} {root : K} {p : Patch}
+    (h : evaluate sigOk ts graphInit patchApplyM fuel g root = .ok p g') :
+    ∃ (p0 : Patch) (hist : List Op), p = eval p0 hist ∧
+      ∀ pre post, hist = pre ++ post → (∀ o ∈ post, ∀ r0 c0 anc, Action.merge r0 c0 anc ∉ o.actions) →
+        ∀ r c, (eval p0 pre).state = .merged r c → p.state = .merged r c := by
+  obtain ⟨rn, p0, calls, _, _, _, _, _, hp⟩ := evaluate_is_eval hwf hac h
+  refine ⟨p0, _, hp, fun pre post hsplit hno r c hm => ?_⟩
+  rw [hp, hsplit]
+  have : eval p0 (pre ++ post) = eval (eval p0 pre) post := by simp [Patch.eval, List.foldl_append]
+  rw [this]
+  exact merged_is_stable_history post hno hm
+
+end Graph
 
 /-! ### non-vacuity -/
 
